@@ -188,6 +188,10 @@ def recorded_cases(draw):
     c["aspread"] = gen.f32(draw(st.floats(1e-6, 1e-3))) if noise and not c["pspread"] or (noise and draw(st.booleans())) else 0.0
     mod = draw(st.booleans()) or not noise
     c["modampl"] = gen.f32(draw(st.floats(1e-3, 0.3))) if mod else 0.0
+    if mod and c["linear"] and draw(st.integers(0, 5)) == 0:
+        # phase excursions beyond +-pi (modulation amplitudes above 180 degrees): the linear kick is NOT periodic in the
+        # phase (round-10 seed C19j reduces the phase to its principal value before building the kick)
+        c["modampl"] = gen.f32(draw(st.floats(3.3, 6.5)))
     c["modstep"] = float(draw(st.floats(1e-3, 0.2)) * draw(st.sampled_from([1.0, 1.0, -1.0]))) if mod else 0.0
     c["napply"] = draw(st.integers(max(1, c["steps"] // 2), c["steps"])) if long else draw(st.integers(1, c["steps"]))
     c["flush_at"] = sorted(set(draw(st.lists(st.integers(0, c["napply"]), min_size=0, max_size=4))))
